@@ -466,6 +466,11 @@ func init() {
 
 	// ----- gluon async.QueuedChannel: the forwarding goroutine is not started; Enqueue delivers straight into the
 	// (unbounded) channel, i.e. the queue is modelled as the FIFO, loss-free pipe it is specified to be -----
+	// logging.DoAnnotated(ctx, fn, labels...) = pprof.Do with labels: runs fn(ctx) (labels are not modelled)
+	reg("github.com/ProtonMail/gluon/logging.DoAnnotated", func(e *Exec, c *frame, fn *ssa.Function, a []Value) Value {
+		e.call(c, token.NoPos, a[1], []Value{a[0]})
+		return nil
+	})
 	reg("github.com/ProtonMail/gluon/async.GoAnnotated", func(e *Exec, c *frame, fn *ssa.Function, a []Value) Value {
 		if e.P.cfg.Goroutines {
 			// GoAnnotated(ctx, panicHandler, fn, labels) runs fn(ctx) in a new goroutine (pprof labels and the panic
